@@ -13,7 +13,7 @@ ROOT = os.path.dirname(os.path.dirname(os.path.abspath(__file__)))
 REPO = os.environ.get("VERIF_REPO", "/repo")
 SPECS = os.path.join(ROOT, "specs")
 HARNESS = os.path.join(ROOT, "harness")
-EVID = os.path.join(ROOT, "evidence")
+EVID = os.environ.get("VERIF_EVIDENCE", os.path.join(ROOT, "evidence"))   # (redirected when seeded changes are tried)
 REPLAYS = os.path.join(EVID, "replays")
 TMPBASE = os.environ.get("VERIF_TMP", "/var/tmp")
 NCPU = os.cpu_count() or 4
